@@ -1074,3 +1074,234 @@ Proof.
   vm_compute in E1. vm_compute in E2. apply Some_inj in E1. apply Some_inj in E2. subst s1 s2.
   vm_compute. discriminate.
 Qed.
+
+(** ---- level 2: the payload of a quoted spec, read by the lexer of [_arguments] / [_describe] ---- *)
+(** [zrun2] threads BOTH lexers through the pieces of one shell word list: [sh_step] over the bytes, [zspec_step] over
+    the level-1 payload; an [escape_help] slot must be met inside quotes in the description or in a field of the spec,
+    a positional's help inside quotes in a field *)
+Fixpoint zrun2 (s1 : zstate) (s2 : zsstate) (l : list zpiece) : option (zstate * zsstate) :=
+  match l with
+  | [] => Some (s1, s2)
+  | Zx b :: r => zrun2 (final sh_step s1 b) (final zspec_step s2 (lits (events sh_step s1 b))) r
+  | Zh _ :: r => match s1, s2 with
+                 | ZSQ, ZsDescr => zrun2 s1 s2 r
+                 | ZSQ, ZsField => zrun2 s1 s2 r
+                 | _, _ => None end
+  | Zp _ :: r => match s1, s2 with
+                 | ZSQ, ZsField => zrun2 s1 s2 r
+                 | _, _ => None end
+  end.
+(** the level-2 events, slot by slot: a text contributes itself (newlines flattened by escape_help), as literal payload *)
+Fixpoint zpev2 (s1 : zstate) (s2 : zsstate) (l : list zpiece) : list ev :=
+  match l with
+  | [] => []
+  | Zx b :: r => events zspec_step s2 (lits (events sh_step s1 b))
+                 ++ zpev2 (final sh_step s1 b) (final zspec_step s2 (lits (events sh_step s1 b))) r
+  | Zh t :: r => map Lit (flatten t) ++ zpev2 s1 s2 r
+  | Zp t :: r => map Lit (lit " -- " ++ t) ++ zpev2 s1 s2 r
+  end.
+Fixpoint zpskel2 (s1 : zstate) (s2 : zsstate) (l : list zpiece) : list ev :=
+  match l with
+  | [] => []
+  | Zx b :: r => skeleton (events zspec_step s2 (lits (events sh_step s1 b)))
+                 ++ zpskel2 (final sh_step s1 b) (final zspec_step s2 (lits (events sh_step s1 b))) r
+  | _ :: r => zpskel2 s1 s2 r
+  end.
+
+(** what zsh hands to the second level: the payload of the words *)
+Definition payload (l : list zpiece) (s1 : zstate) : list N := lits (events sh_step s1 (zrender l)).
+
+Theorem zrun2_events l : forall s1 s2 st, zrun2 s1 s2 l = Some st ->
+  events zspec_step s2 (payload l s1) = zpev2 s1 s2 l /\ final zspec_step s2 (payload l s1) = snd st.
+Proof.
+  unfold payload. induction l as [|p l IH]; intros s1 s2 st H.
+  - cbn in H. inversion H; subst. split; reflexivity.
+  - rewrite zrender_cons. destruct p as [b|t|t]; cbn [zrun2 zrender1 zpev2] in *.
+    + destruct (IH _ _ _ H) as [E F].
+      rewrite events_app, lits_app, events_app, final_app, E, F. split; reflexivity.
+    + destruct (zsh_sq_context t (zrender l)) as (_ & _ & L').
+      destruct s1; try discriminate; destruct s2; try discriminate; destruct (IH _ _ _ H) as [E F]; rewrite L'.
+      * destruct (zsh_descr_context t (lits (events sh_step ZSQ (zrender l)))) as [F2 E2]. rewrite E2, F2, E, F. split; reflexivity.
+      * destruct (zsh_field_context t (lits (events sh_step ZSQ (zrender l)))) as [F2 E2]. rewrite E2, F2, E, F. split; reflexivity.
+    + destruct (zsh_pos_sq_context (lit " -- " ++ t) (zrender l)) as (_ & _ & L').
+      destruct s1; try discriminate; destruct s2; try discriminate; destruct (IH _ _ _ H) as [E F]; rewrite L'.
+      destruct (zsh_pos_field_context (lit " -- " ++ t) (lits (events sh_step ZSQ (zrender l)))) as [F2 E2].
+      rewrite E2, F2, E, F. split; reflexivity.
+Qed.
+
+Lemma zpev2_skeleton l : forall s1 s2, skeleton (zpev2 s1 s2 l) = zpskel2 s1 s2 l.
+Proof.
+  induction l as [|p l IH]; intros s1 s2; [reflexivity|].
+  destruct p as [b|t|t]; cbn [zpev2 zpskel2]; rewrite skeleton_app.
+  - now rewrite IH.
+  - now rewrite skeleton_map_Lit, IH.
+  - now rewrite skeleton_map_Lit, IH.
+Qed.
+Lemma zrun2_perase l : forall s1 s2, zrun2 s1 s2 (map zperase l) = zrun2 s1 s2 l.
+Proof.
+  induction l as [|p l IH]; intros s1 s2; [reflexivity|].
+  destruct p as [b|t|t]; cbn [map zperase zrun2]; [apply IH| |]; destruct s1; try reflexivity; destruct s2; try reflexivity; apply IH.
+Qed.
+Lemma zpskel2_perase l : forall s1 s2, zpskel2 s1 s2 (map zperase l) = zpskel2 s1 s2 l.
+Proof.
+  induction l as [|p l IH]; intros s1 s2; [reflexivity|].
+  destruct p as [b|t|t]; cbn [map zperase zpskel2]; now rewrite IH.
+Qed.
+
+(** two word lists with the same fixed text: the same level-2 token skeleton and final level-2 state, whatever the texts *)
+Theorem level2_invariance l1 l2 s1 s2 st :
+  zrun2 s1 s2 l1 = Some st -> map zperase l1 = map zperase l2 ->
+  skeleton (events zspec_step s2 (payload l1 s1)) = skeleton (events zspec_step s2 (payload l2 s1)) /\
+  final zspec_step s2 (payload l1 s1) = final zspec_step s2 (payload l2 s1).
+Proof.
+  intros R1 E. assert (R2 : zrun2 s1 s2 l2 = Some st) by (rewrite <- zrun2_perase, <- E, zrun2_perase; exact R1).
+  destruct (zrun2_events l1 s1 s2 st R1) as [E1 F1]. destruct (zrun2_events l2 s1 s2 st R2) as [E2 F2].
+  rewrite E1, E2, F1, F2, !zpev2_skeleton, <- (zpskel2_perase l1), <- (zpskel2_perase l2), E. split; reflexivity.
+Qed.
+
+(** ---- every spec line of a tame tree runs at level 2 ---- *)
+(** inside the quotes: the payload of fixed text without a quote is the text itself *)
+Definition nosq (b : bytes) : bool := forallb (fun c => negb (c =? 39)) b.
+Lemma sq_lits b : nosq b = true -> final sh_step ZSQ b = ZSQ /\ lits (events sh_step ZSQ b) = b.
+Proof.
+  induction b as [|c b IH]; intros H; [split; reflexivity|].
+  cbn [nosq forallb] in H. apply andb_true_iff in H. destruct H as [Hc Hb]. apply negb_true_iff in Hc.
+  cbn [final events sh_step]. rewrite Hc. cbn [fst snd app lits]. destruct (IH Hb) as [F L]. rewrite F, L. split; reflexivity.
+Qed.
+Lemma nosq_app a b : nosq (a ++ b) = nosq a && nosq b.
+Proof. apply forallb_app. Qed.
+Lemma tame_nosq s : tame s = true -> nosq s = true.
+Proof.
+  unfold tame, nosq. intros H. rewrite forallb_forall in *. intros c Hc. specialize (H c Hc).
+  unfold tame_byte in H. apply negb_true_iff in H. apply negb_true_iff.
+  apply orb_false_iff in H. destruct H as [H _]. apply orb_false_iff in H. destruct H as [H _].
+  apply orb_false_iff in H. tauto.
+Qed.
+Lemma nosq_escape_value_char c : tame_byte c = true -> nosq (apply_chain zsh_escape_value_chain [c]) = true.
+Proof.
+  intros Hc. destruct (in_dec N.eq_dec c (keys zsh_escape_value_chain)) as [Hin|Hout].
+  - cbn in Hin. repeat (destruct Hin as [<-|Hin]; [try reflexivity; discriminate Hc|]). destruct Hin.
+  - rewrite apply_chain_other by (reflexivity || assumption). apply tame_nosq. cbn [tame forallb]. rewrite Hc. reflexivity.
+Qed.
+Lemma nosq_escape_value s : tame s = true -> nosq (zsh_escape_value s) = true.
+Proof.
+  unfold zsh_escape_value. rewrite apply_chain_charwise by reflexivity.
+  induction s as [|c s IH]; intros H; [reflexivity|].
+  cbn [tame forallb] in H. apply andb_true_iff in H. destruct H as [Hc Hs].
+  cbn [flat_map]. rewrite nosq_app, (nosq_escape_value_char c Hc), (IH Hs). reflexivity.
+Qed.
+
+(** the content of a quoted word: the level-2 lexer alone *)
+Fixpoint run_in (s2 : zsstate) (l : list zpiece) : option zsstate :=
+  match l with
+  | [] => Some s2
+  | Zx b :: r => if nosq b then run_in (final zspec_step s2 b) r else None
+  | Zh _ :: r => match s2 with ZsDescr => run_in s2 r | ZsField => run_in s2 r | _ => None end
+  | Zp _ :: r => match s2 with ZsField => run_in s2 r | _ => None end
+  end.
+Lemma zrun2_in l : forall s2 s2' tail, run_in s2 l = Some s2' -> zrun2 ZSQ s2 (l ++ tail) = zrun2 ZSQ s2' tail.
+Proof.
+  induction l as [|p l IH]; intros s2 s2' tail H; [cbn in H; inversion H; reflexivity|].
+  destruct p as [b|t|t]; cbn [run_in zrun2 app] in *.
+  - destruct (nosq b) eqn:Eb; [|discriminate]. destruct (sq_lits b Eb) as [F L]. rewrite F, L. apply IH. exact H.
+  - destruct s2; try discriminate; apply IH; exact H.
+  - destruct s2; try discriminate; apply IH; exact H.
+Qed.
+(** a whole line: quote, content, quote, the continuation backslash *)
+Lemma zrun2_line a inner st s2 s2' :
+  zbare st = true -> nosq a = true -> run_in (final zspec_step s2 a) inner = Some s2' ->
+  zrun2 st s2 (Zx (39 :: a) :: inner ++ [Zx (lit "' \")]) = Some (ZBS, s2').
+Proof.
+  intros Hst Ha Hin. destruct (sq_lits a Ha) as [F L].
+  assert (E : final sh_step st (39 :: a) = ZSQ /\ lits (events sh_step st (39 :: a)) = a).
+  { destruct st; try discriminate; (split; [exact F|]);
+      change (lits (Qm 39 :: events sh_step ZSQ a) = a); cbn [lits]; exact L. }
+  cbn [zrun2]. destruct E as [E1 E2]. rewrite E1, E2. rewrite (zrun2_in inner _ s2' _ Hin). reflexivity.
+Qed.
+
+Definition run2_to (P Q : zsstate -> bool) (l : list zpiece) : Prop :=
+  forall s, P s = true -> exists s', run_in s l = Some s' /\ Q s' = true.
+Lemma run2_nil P : run2_to P P [].
+Proof. intros s H. exists s. split; [reflexivity|exact H]. Qed.
+Lemma run_in_app a : forall s b, run_in s (a ++ b) = match run_in s a with Some s' => run_in s' b | None => None end.
+Proof.
+  induction a as [|p a IH]; intros s b; [reflexivity|].
+  destruct p as [x|t|t]; cbn [run_in app].
+  - destruct (nosq x); [apply IH|reflexivity].
+  - destruct s; try reflexivity; apply IH.
+  - destruct s; try reflexivity; apply IH.
+Qed.
+Lemma run2_app P Q R a b : run2_to P Q a -> run2_to Q R b -> run2_to P R (a ++ b).
+Proof.
+  intros Ha Hb s H. destruct (Ha s H) as (s1 & R1 & B1). destruct (Hb s1 B1) as (s2 & R2 & B2).
+  exists s2. rewrite run_in_app, R1. split; assumption.
+Qed.
+Definition pres2 (P Q : zsstate -> bool) (b : bytes) : Prop := forall s, P s = true -> Q (final zspec_step s b) = true.
+Lemma pres2_nil P : pres2 P P [].
+Proof. intros s H. exact H. Qed.
+Lemma pres2_app P Q R a b : pres2 P Q a -> pres2 Q R b -> pres2 P R (a ++ b).
+Proof. intros Ha Hb s H. rewrite final_app. apply Hb, Ha, H. Qed.
+Definition all_states2 : list zsstate := [ZsPre; ZsPreB; ZsDescr; ZsDescrB; ZsField; ZsFieldB].
+Definition pres2_checkb (P Q : zsstate -> bool) (b : bytes) : bool :=
+  forallb (fun s => implb (P s) (Q (final zspec_step s b))) all_states2.
+Lemma pres2_checkb_ok P Q b : pres2_checkb P Q b = true -> pres2 P Q b.
+Proof.
+  unfold pres2_checkb. intros H s Hs. rewrite forallb_forall in H.
+  assert (Hin : In s all_states2) by (destruct s; cbn; tauto).
+  specialize (H s Hin). rewrite Hs in H. exact H.
+Qed.
+Ltac lit_pres2 := apply pres2_checkb_ok; vm_compute; reflexivity.
+Lemma run2_zx P Q b : nosq b = true -> pres2 P Q b -> run2_to P Q [Zx b].
+Proof. intros Hn Hb s H. cbn [run_in]. rewrite Hn. eexists. split; [reflexivity|]. apply Hb, H. Qed.
+
+(** not after a backslash / where a slot may stand / in a field *)
+Definition nob (s : zsstate) : bool := match s with ZsPre | ZsDescr | ZsField => true | _ => false end.
+Definition slot_ok (s : zsstate) : bool := match s with ZsDescr | ZsField => true | _ => false end.
+Definition is_field (s : zsstate) : bool := match s with ZsField => true | _ => false end.
+Definition is_pre (s : zsstate) : bool := match s with ZsPre => true | _ => false end.
+Lemma run2_zh : run2_to slot_ok slot_ok [Zh []] /\ forall t, run2_to slot_ok slot_ok [Zh t].
+Proof. split; [|intros t]; intros [] H; try discriminate; eexists; split; reflexivity. Qed.
+Lemma run2_zh_field t : run2_to is_field is_field [Zh t].
+Proof. intros [] H; try discriminate; eexists; split; reflexivity. Qed.
+Lemma run2_zp t : run2_to is_field is_field [Zp t].
+Proof. intros [] H; try discriminate; eexists; split; reflexivity. Qed.
+
+Lemma tame_byte_spec c : tame_byte c = true ->
+  (forall s, nob s = true -> nob (fst (zspec_step s c)) = true) /\
+  (forall s, slot_ok s = true -> slot_ok (fst (zspec_step s c)) = true) /\
+  fst (zspec_step ZsField c) = ZsField.
+Proof.
+  unfold tame_byte. intros H. apply negb_true_iff in H.
+  apply orb_false_iff in H. destruct H as [H _]. apply orb_false_iff in H. destruct H as [_ H92].
+  split; [|split].
+  - intros [] Hs; try discriminate; cbn [zspec_step]; rewrite H92.
+    + destruct (c =? 91); [reflexivity|]. destruct (c =? 58); reflexivity.
+    + destruct (c =? 93); reflexivity.
+    + destruct (c =? 58); reflexivity.
+  - intros [] Hs; try discriminate; cbn [zspec_step]; rewrite H92.
+    + destruct (c =? 93); reflexivity.
+    + destruct (c =? 58); reflexivity.
+  - cbn [zspec_step]. rewrite H92. destruct (c =? 58); reflexivity.
+Qed.
+Lemma pres2_tame_nob s : tame s = true -> pres2 nob nob s.
+Proof.
+  induction s as [|c s IH]; intros H; [apply pres2_nil|].
+  cbn [tame forallb] in H. apply andb_true_iff in H. destruct H as [Hc Hs].
+  intros st Hst. cbn [final]. apply (IH Hs). apply (proj1 (tame_byte_spec c Hc)). exact Hst.
+Qed.
+Lemma pres2_tame_slot s : tame s = true -> pres2 slot_ok slot_ok s.
+Proof.
+  induction s as [|c s IH]; intros H; [apply pres2_nil|].
+  cbn [tame forallb] in H. apply andb_true_iff in H. destruct H as [Hc Hs].
+  intros st Hst. cbn [final]. apply (IH Hs). apply (proj1 (proj2 (tame_byte_spec c Hc))). exact Hst.
+Qed.
+Lemma pres2_tame_field s : tame s = true -> pres2 is_field is_field s.
+Proof.
+  induction s as [|c s IH]; intros H; [apply pres2_nil|].
+  cbn [tame forallb] in H. apply andb_true_iff in H. destruct H as [Hc Hs].
+  intros [] Hst; try discriminate. cbn [final]. rewrite (proj2 (proj2 (tame_byte_spec c Hc))). apply (IH Hs). reflexivity.
+Qed.
+Lemma slot_nob s : slot_ok s = true -> nob s = true.
+Proof. destruct s; auto. Qed.
+Lemma field_slot s : is_field s = true -> slot_ok s = true.
+Proof. destruct s; auto. Qed.
